@@ -81,7 +81,7 @@ func c01Gen(ctx *core.Ctx, idx int) core.Result {
 	o.MaxDepth = r.Range(1, 5)
 	o.MaxStmts = r.Range(1, 5)
 	if r.Chance(1, 3) {
-		o.Faults = 1
+		o.Faults = r.Range(1, 2)
 	}
 	g := gen.New(r, o)
 	stmts := append(g.Helpers(), g.Session(r.Range(2, 8))...)
